@@ -215,6 +215,9 @@ func (c *Check) readerFraming(rule string) {
 		case "offer:readerErrCh":
 			ec := p.classifyErr(st, args[0])
 			if ec.Notif != nil {
+				if o, isC := ec.Out.IsConst(); !isC || o != 1 {
+					return "?" // a notification the FSM would not send
+				}
 				cc, ok1 := ec.Notif.Code.IsConst()
 				sb, ok2 := ec.Notif.Sub.IsConst()
 				if ok1 && ok2 {
@@ -281,7 +284,59 @@ func (c *Check) readerFraming(rule string) {
 	}
 	bodyReadReachable := func(a *Analysis) bool { return allEvents(a)["call:io.ReadFull(body)"] }
 	msgSendReachable := func(a *Analysis) bool { return allEvents(a)["offer:readerMsgCh"] }
-	ffHook := rangeHook(allFF, isConst(255))
+	// the sixteen marker octets (with the marker loop unrolled the index is a
+	// constant; the length octets 16, 17 and the type octet are not marker)
+	ffHook := func(e *Expr) (ISet, bool) {
+		if !allFF(e) {
+			return nil, false
+		}
+		if iv, isC := e.Args[0].Args[1].IsConst(); isC && (iv < 0 || iv > 15) {
+			return nil, false
+		}
+		return isConst(255), true
+	}
+	// which read failed: the header read fills the 19-octet array, the body
+	// read a slice made for the message
+	readErr := func(header bool, fails bool) func(e *Expr) (ISet, bool) {
+		return func(e *Expr) (ISet, bool) {
+			if e.Op != "nn" || e.Args[0].Op != "ex" || len(e.Args[0].Args) == 0 {
+				return nil, false
+			}
+			rc := e.Args[0].Args[0]
+			if rc.Op != "rcall" || rc.S != "io.ReadFull" || len(rc.Args) == 0 {
+				return nil, false
+			}
+			root, _, _ := sliceParts(rc.Args[len(rc.Args)-1])
+			if (root.Op == "arr") != header {
+				return nil, false
+			}
+			return isConst(b2i(fails)), true
+		}
+	}
+	decodeErr := func(fails bool) func(e *Expr) (ISet, bool) { return nnResult("messageFromBytes", fails) }
+	okHeader := hooks(readErr(true, false), ffHook, rangeHook(isLen, isRange(20, 4096)))
+	onlyPlainErr := func(a *Analysis) (bool, string) {
+		evs := allEvents(a)
+		if evs["call:io.ReadFull(body)"] && false {
+			return false, ""
+		}
+		if msgSendReachable(a) {
+			return false, "a message is handed over although the read failed"
+		}
+		offered := false
+		for ev := range evs {
+			if strings.HasPrefix(ev, "offer:readerErrCh(") {
+				offered = true
+				if ev != "offer:readerErrCh(plain)" {
+					return false, "something other than the read error is reported: " + ev
+				}
+			}
+		}
+		if !offered {
+			return false, "the read error is never reported to the FSM"
+		}
+		return true, ""
+	}
 	for _, w := range []struct {
 		name string
 		hook func(e *Expr) (ISet, bool)
@@ -310,6 +365,53 @@ func (c *Check) readerFraming(rule string) {
 			}
 			return mustNot(a, func(cd, sb int64) bool { return !(cd == 1 && sb == 2) })
 		}},
+		{"header read fails => the error is reported, nothing else happens", readErr(true, true), func(a *Analysis) (bool, string) {
+			if bodyReadReachable(a) {
+				return false, "the body is read after a failed header read"
+			}
+			return onlyPlainErr(a)
+		}},
+		{"valid header, body read fails => the error is reported, nothing delivered", hooks(okHeader, readErr(false, true)), onlyPlainErr},
+		{"valid header, body read, decode fails => the decode error is reported, nothing delivered", hooks(okHeader, readErr(false, false), decodeErr(true)), func(a *Analysis) (bool, string) {
+			if msgSendReachable(a) {
+				return false, "a message is handed over although decoding failed"
+			}
+			for ev := range allEvents(a) {
+				if strings.HasPrefix(ev, "offer:readerErrCh(") {
+					return true, ""
+				}
+			}
+			return false, "the decode error is never reported to the FSM"
+		}},
+		{"valid header, body read and decoded => the message is delivered, no error reported", hooks(okHeader, readErr(false, false), decodeErr(false)), func(a *Analysis) (bool, string) {
+			if !msgSendReachable(a) {
+				return false, "the message is never handed over"
+			}
+			for ev := range allEvents(a) {
+				if strings.HasPrefix(ev, "offer:readerErrCh") {
+					return false, "an error is reported for a message that was read and decoded: " + ev
+				}
+			}
+			// the body was read before the hand-off
+			for in, sts := range a.At {
+				sel, isSel := in.(*ssa.Select)
+				if !isSel {
+					continue
+				}
+				hands := false
+				for _, ss := range sel.States {
+					if ss.Send != nil && chanFieldName(ss.Chan) == "readerMsgCh" {
+						hands = true
+					}
+				}
+				for _, st := range sts {
+					if hands && !st.must["call:io.ReadFull(body)"] {
+						return false, "the message is handed over without its body having been read"
+					}
+				}
+			}
+			return true, ""
+		}},
 		{"marker all 0xFF => never Connection Not Synchronized", ffHook, func(a *Analysis) (bool, string) {
 			return mustNot(a, func(cd, sb int64) bool { return cd == 1 && sb == 1 })
 		}},
@@ -323,6 +425,7 @@ func (c *Check) readerFraming(rule string) {
 		b := NewAnalysis(p, fn)
 		b.AtomHook = w.hook
 		b.EventArgs = readerEvents
+		b.Unroll = 16
 		b.Run()
 		if len(b.Undecided) > 0 {
 			c.undecided("C08.1 header-validation", "fsm.read", w.name, p.Pos(fn.Pos()), b.Undecided[0])
